@@ -250,6 +250,9 @@ def oracle(case, impl, model=None):
                                 return {"kind": "DlChannelReq with an out-of-band frequency was fully acknowledged", "request": p.hex()}
                         else:
                             ch = pa2[0][idx] if idx < 16 else None
+                            if idx < chanops.NDEFAULT.get(region, 0):
+                                # RP002: the default channels "cannot be modified through the NewChannelReq command"
+                                return {"kind": "NewChannelReq aimed at a default channel was fully acknowledged", "request": p.hex(), "answer": pa.hex()}
                             if freq == 0:
                                 if ch is not None:
                                     return {"kind": "NewChannelReq(frequency 0) acknowledged but the channel still exists", "request": p.hex()}
@@ -294,7 +297,8 @@ def run(rep, tier, rng):
     if not core.build_both(rep):
         core.finish_proof_failures(rep)
         return
-    lines = gen(rng, tier) + chanops.gen(rng, tier, lambda r: machist.draws(r, 40) + "," + ",".join(str(v) for v in range(32)))
+    cover = lambda r: machist.draws(r, 40) + "," + ",".join(str(v) for v in range(32))
+    lines = gen(rng, tier) + chanops.gen(rng, tier, cover) + chanops.default_channel_histories(rng.fork("dc"), tier, cover)
     core.diff_stage(rep, "X:C08:mac-histories(commands)", lines, macstage.make_judge([], extra=oracle))
     known = core.load_known(ID)
     macstage.oracle_pass(rep, lines, [], extra=oracle)
